@@ -74,6 +74,25 @@ def opSample : J.Op := fun j => do
     pure <| exceptToJson (sampleMateRealSus w xmap nc sigma offset perm perm2)
   | _ => J.fail s!"unknown encoding {enc}"
 
+/-- the model of the PROPOSED repair of D20 (`patch_D20.diff`; used when that patch is evaluated in a scratch
+    worktree, never on the unchanged tree): `proportional_choice` + the common tail -/
+def opSampleRepaired : J.Op := fun j => do
+  let nc ← J.field j "ncross" J.nat
+  let np ← J.field j "nparent" J.nat
+  let decn ← J.field j "decn" (J.list J.nat)
+  let extra ← J.fieldD j "extra" (J.list J.nat) []
+  let perm ← J.fieldD j "perm" (J.list J.nat) []
+  let orders ← J.fieldD j "orders" (J.mat J.nat) []
+  let rowperms ← J.fieldD j "rowperms" (J.mat J.nat) []
+  if extra.length != shareLeft decn (nc * np) then
+    J.fail s!"oracle: extra has {extra.length} elements, expected {shareLeft decn (nc * np)}"
+  if !(extra.all (fun i => extra.count i == 1 && decide (i < decn.length) &&
+        decide (0 < (nc * np * decn.getD i 0) % decn.sum))) then
+    J.fail "oracle: extra is not a set of candidates with a fractional share"
+  if !isPermOfRange (nc * np) perm then J.fail "oracle: perm is not a permutation"
+  checkArrange nc np orders rowperms
+  pure <| exceptToJson (sampleIntegerRepaired decn nc np extra perm orders rowperms)
+
 /-- the Spec oracle of the configuration clauses, evaluated on an observed `xconfig` -/
 def opSpec : J.Op := fun j => do
   let enc ← J.field j "enc" J.str
@@ -122,6 +141,14 @@ def opSorting : J.Op := fun j => do
   let obj ← J.field j "obj" (J.list J.rat)
   let k ← J.field j "k" J.nat
   pure <| J.ofList J.ofNat (SelProt.sortingSubset obj k)
+
+/-- the sorting optimiser with numpy's argsort result as a validated oracle (exact comparison with ties) -/
+def opSortingWith : J.Op := fun j => do
+  let obj ← J.field j "obj" (J.list J.rat)
+  let k ← J.field j "k" J.nat
+  let sigma ← J.field j "sigma" (J.list J.nat)
+  if !SelProt.validArgsort obj sigma then J.fail "oracle: sigma is not an argsort of the objective values"
+  pure <| J.ofList J.ofNat (SelProt.sortingSubsetWith sigma k)
 
 def opSpecTopK : J.Op := fun j => do
   let obj ← J.field j "obj" (J.list J.rat)
@@ -204,8 +231,8 @@ def opSpecSpace : J.Op := fun j => do
   pure <| J.ofBool (SelProt.specSpace subset nopt ⟨ndecn, space, lower, upper⟩)
 
 def ops : List (String × J.Op) :=
-  [("c07.sample", opSample), ("c07.spec", opSpec), ("c07.xmapix", opXmapix),
-   ("c07.sorting", opSorting), ("c07.spec_topk", opSpecTopK),
+  [("c07.sample", opSample), ("c07.sample_repaired", opSampleRepaired), ("c07.spec", opSpec), ("c07.xmapix", opXmapix),
+   ("c07.sorting", opSorting), ("c07.sorting_with", opSortingWith), ("c07.spec_topk", opSpecTopK),
    ("c07.mo_choice", opMoChoice), ("c07.spec_argmax", opSpecArgmax), ("c07.ndset_dist", opNdsetDist),
    ("c07.uc_bounds", opUcBounds), ("c07.family_bounds", opFamilyBounds),
    ("c07.embv_bounds", opEmbvBounds), ("c07.spec_cover", opSpecCover),
